@@ -230,7 +230,7 @@ class C01Machine(TraceMachine):
         if n:
             self.effective.add("gc")
 
-    @rule(store=st.sampled_from([0, 0, 2, 3]), which=st.integers(0, 40),
+    @rule(store=st.sampled_from([0, 0, 0, 2, 3]), which=st.integers(0, 40),
           cut=st.one_of(st.just(0), st.just(0), st.integers(1, 300)))
     @traced
     def crash_leftover(self, store, which, cut):
